@@ -224,11 +224,17 @@ class _StubNet:
         from aioslsk.protocol.messages import AddUser
         from aioslsk.exceptions import ConnectionReadError
         user = (fields or {}).get('username', '?')
+        t0 = self.run.now()
         try:
             async with asyncio.timeout(timeout):
                 ans = await self.run.park(user, 'W')
         except TimeoutError:
             self.run.outcome(user, 'timeout')
+            if self.run.now() - t0 != DELAY['timeout'] * 1024:
+                self.run.problems.append((
+                    'C15-response-timeout-wrong',
+                    f'user {user}: the wait for the AddUser answer gave up after {(self.run.now() - t0) / 1024} s, '
+                    f'documented: {DELAY["timeout"]} s'))
             raise
         if ans == 'exists':
             return AddUser.Response(user, exists=True, status=2, country_code='XX')
@@ -253,6 +259,8 @@ def _run_impl(case: dict) -> dict:
 
 
 def _eval_case(case: dict) -> dict:
+    import logging
+    logging.getLogger('aioslsk').setLevel(logging.CRITICAL)    # the library logs swallowed exceptions; keep stderr clean
     try:
         return _run_impl(case)
     except Exception as e:       # the real code raised / hung: an observation, not a harness crash
@@ -604,7 +612,7 @@ class C15(Property):
 
     def _cases(self, seed, tier, widen):
         rng = random.Random(f'C15-{seed}')
-        n = (1500 if tier == 'quick' else 40000) * widen
+        n = (6000 if tier == "quick" else 120000) * widen
         cases = [WITNESS_LOST, WITNESS_SWALLOW]
         cdir = common.CORPUS / 'C15'
         if cdir.is_dir():
